@@ -108,7 +108,7 @@ Qed.
 (** ** one iteration of eliminate_1to1_forks *)
 Definition ElimOK (c : circ) : Prop :=
   forall m, In m (nodes c) -> is_fork (kind_of c m) = true -> in_ios c m = false -> List.length (outs_of c m) = 1 ->
-  exists l tl, ins_of c m = Some l :: tl /\ all_none tl = true.
+  forall l tl, ins_of c m = Some l :: tl -> all_none tl = true.
 
 Lemma in_ios_ext : forall c c' m, io c' = io c ->
   (forall x, n_name (nst c' x) = n_name (nst c x) /\ n_kind (nst c' x) = n_kind (nst c x)) -> in_ios c' m = in_ios c m.
@@ -134,8 +134,9 @@ Proof.
   { exists c. split; [reflexivity|]. split; [split; auto|]. split; auto. }
   destruct (in_ios c n) eqn:Hio; auto.
   destruct (outs_of c n) as [|oo [|oo2 orest]] eqn:Ho; auto.
-  destruct (HOK n Hn Hfk Hio) as [inl [tl [Hins Htl]]]. { rewrite Ho. reflexivity. }
-  rewrite Hins.
+  (* `if len(n.ins) < 1 or n.ins[0] is None: continue`: a fork without driver is left alone *)
+  destruct (ins_of c n) as [|[inl|] tl] eqn:Hins; auto.
+  assert (Htl : all_none tl = true). { apply (HOK n Hn Hfk Hio) with (l := inl); auto. rewrite Ho. reflexivity. }
   assert (Hoo : exists out, oo = Some out).
   { destruct oo as [out|]. exists out; auto. exfalso. apply (HD n (or_introl Hn) Hfk 0). rewrite Ho. simpl. lia.
     unfold out_at. rewrite Ho. reflexivity. }
@@ -231,19 +232,28 @@ Proof.
     destruct (Hnk4 m) as [_ B]. rewrite B in Hk.
     apply (HD m); auto. left. rewrite M3 in Hm. apply N6 in Hm. tauto.
   - (* the remaining 1:1 forks still have exactly one input connection *)
-    intros m Hm Hk Hio' Hlen. rewrite Hnodes4 in Hm.
+    intros m Hm Hk Hio' Hlen l1 tl1 Hl1. rewrite Hnodes4 in Hm.
     assert (Hmd : m <> n) by (intros ->; contradiction).
     assert (Hmc : In m (nodes c)). { rewrite M3 in Hm. apply N6 in Hm. tauto. }
     rewrite (in_ios_ext c c4 m Hio4 Hnk4) in Hio'.
     unf. destruct (Hnk4 m) as [_ B]. rewrite B in Hk. rewrite Houts4, Houts2 in Hlen.
     destruct (Nat.eqb_spec m n); [congruence|].
-    destruct (HOK m Hmc Hk Hio' Hlen) as [l0 [tl0 [Hl0 Htl0]]]. unf.
-    rewrite Hins4, Hins2. destruct (Nat.eqb_spec m R).
-    + subst m. rewrite Nat.eqb_refl. unf. rewrite Hl0.
+    pose proof (HOK m Hmc Hk Hio' Hlen) as HOKm. unf.
+    rewrite Hins4 in Hl1. destruct (Nat.eqb_spec m R).
+    + subst m. rewrite Hins2 in Hl1. rewrite Nat.eqb_refl in Hl1. unf.
+      (* the reader R of the removed fork is itself a 1:1 fork: its pin 0 is connected before and after *)
+      assert (H0 : exists x tl0, n_ins (nst c R) = Some x :: tl0).
+      { pose proof (f_equal (fun l => nth 0 l None) Hl1) as H0. cbv beta in H0. rewrite !nth_gset in H0.
+        unfold in_at, ins_of in E6.
+        destruct (Nat.eqb_spec 0 p) as [Hp|Hp].
+        - rewrite <- Hp in E6. destruct (n_ins (nst c R)) as [|[x|] tl0]; simpl in E6; try discriminate. eauto.
+        - destruct (n_ins (nst c R)) as [|[x|] tl0]; simpl in H0; try discriminate. eauto. }
+      destruct H0 as [x [tl0 Hl0]].
+      pose proof (HOKm x tl0 Hl0) as Htl0.
       assert (Hp0 : p = 0).
-      { unfold in_at, ins_of in E6. rewrite Hl0 in E6. apply (nth_head_only tl0 l0 out p Htl0 E6). }
-      rewrite Hp0. simpl. exists inl, tl0. auto.
-    + exists l0, tl0. rewrite ?Hins2. destruct (Nat.eqb_spec m R); [congruence|]. auto.
+      { unfold in_at, ins_of in E6. rewrite Hl0 in E6. apply (nth_head_only tl0 x out p Htl0 E6). }
+      rewrite Hl0, Hp0 in Hl1. simpl in Hl1. injection Hl1 as _ <-. exact Htl0.
+    + rewrite Hins2 in Hl1. destruct (Nat.eqb_spec m R); [congruence|]. apply (HOKm l1 tl1). exact Hl1.
   - split.
     + intros m Hm Hin. split. rewrite Hnodes4. apply Hnodes2; auto. unf. apply Hnk4.
     + intros HL e He. rewrite Hio4 in He. destruct (HL e He) as [m [-> Hm]]. exists m. split; auto.
@@ -294,7 +304,7 @@ Proof.
     assert (Hin : In m (map snd (forks c))).
     { apply in_map_iff. exists (name_of c m, m). split; auto. apply (cc_forks [] c HC). auto. }
     specialize (Hok m Hin). rewrite Hio, Hlen in Hok. simpl in Hok.
-    destruct (ins_of c m) as [|[l|] tl]; try discriminate. exists l, tl. auto.
+    intros l tl Hl. rewrite Hl in Hok. exact Hok.
   - apply (dict_values_nodup (forks c) (name_of c)). apply (cc_forks_nd [] c HC).
     intros s m H. apply (cc_forks [] c HC) in H. tauto.
 Qed.
